@@ -584,24 +584,33 @@ def translate_lie(repo):
     tree = ast.parse(open(os.path.join(repo, rel)).read())
     tr = Translator(sigs=LIE_SIGS)
     defs = []
+    failed = {}     # per function: one that cannot be translated becomes a stub of its own, the others stay translated
     for name in LIE_ORDER:
-        fdefs = [n for n in tree.body if isinstance(n, ast.FunctionDef) and n.name == name]
-        if len(fdefs) != 1:
-            raise Unsupported("function %s not found exactly once in %s" % (name, rel))
         ptys, rty = LIE_SIGS[name]
-        defs.append(tr.function(fdefs[0], name + "_gen", ptys, rty))
+        try:
+            fdefs = [n for n in tree.body if isinstance(n, ast.FunctionDef) and n.name == name]
+            if len(fdefs) != 1:
+                raise Unsupported("function %s not found exactly once in %s" % (name, rel))
+            lits_before = dict(tr.literals)
+            defs.append(tr.function(fdefs[0], name + "_gen", ptys, rty))
+        except (Unsupported, KeyError, IndexError, AttributeError, TypeError) as e:
+            tr.literals = lits_before if "lits_before" in dir() else {}
+            failed[name] = "%s: %s" % (type(e).__name__, e)
+            defs.append(_lie_stub_def(name))
+    tr.literals.setdefault("lit_1em06", 1e-06)
     lits = "".join("Variable %s : T.   (* float literal %r *)\n" % (k, v) for k, v in sorted(tr.literals.items()))
-    return LIE_HEADER % lits + "\n".join(defs) + FOOTER, dict(tr.literals)
+    return LIE_HEADER % lits + "\n".join(defs) + FOOTER, dict(tr.literals), failed
+
+
+def _lie_stub_def(name):
+    ptys, rty = LIE_SIGS[name]
+    params = " ".join("(a%d : %s)" % (i, Translator.COQ_TYPES[t]) for i, t in enumerate(ptys))
+    dflt = {"S": "n0", "V": "V0", "M": "M0", "P": "pI", "B": "false"}[rty]
+    return "Definition %s_gen %s : %s := %s.  (* translation failed *)" % (name, params, Translator.COQ_TYPES[rty], dflt)
 
 
 def lie_stub():
-    defs = []
-    for name in LIE_ORDER:
-        ptys, rty = LIE_SIGS[name]
-        params = " ".join("(a%d : %s)" % (i, Translator.COQ_TYPES[t]) for i, t in enumerate(ptys))
-        dflt = {"S": "n0", "V": "V0", "M": "M0", "P": "pI", "B": "false"}[rty]
-        defs.append("Definition %s_gen %s : %s := %s.  (* translation failed *)" % (name, params, Translator.COQ_TYPES[rty], dflt))
-    return LIE_HEADER % "Variable lit_1em06 : T.\n" + "\n".join(defs) + FOOTER
+    return LIE_HEADER % "Variable lit_1em06 : T.\n" + "\n".join(_lie_stub_def(name) for name in LIE_ORDER) + FOOTER
 
 
 def translate_umeyama(repo):
@@ -637,6 +646,8 @@ if __name__ == "__main__":
     import sys
     repo = sys.argv[1] if len(sys.argv) > 1 else "/repo"
     if len(sys.argv) > 2 and sys.argv[2] == "lie":
-        print(translate_lie(repo)[0])
+        t_, l_, f_ = translate_lie(repo)
+        print(t_)
+        print("(* failed: %r *)" % f_)
     else:
         print(translate_umeyama(repo))
